@@ -113,13 +113,19 @@ func cleanFunc(l string) string {
 // leaked waits (up to grace, polling) for goroutines created by tunnox-core code that are not in
 // the baseline to end, and returns those that persist.
 func leaked(base baseline, grace time.Duration) (n int, top string, detail string) {
+	return leakedOf(base, grace, "")
+}
+
+// leakedOf: the same, counting only goroutines whose stack mentions `only` (a package path; "" = all). Used by the
+// cases whose component is kept alive across other behaviours (held.go): what those leave behind is theirs to report.
+func leakedOf(base baseline, grace time.Duration, only string) (n int, top string, detail string) {
 	deadline := time.Now().Add(grace)
 	sleep := 200 * time.Microsecond
 	var left []gor
 	for {
 		left = left[:0]
 		for _, g := range dumpGoroutines() {
-			if !base[g.id] && createdByRepo(g) {
+			if !base[g.id] && createdByRepo(g) && (only == "" || strings.Contains(g.text, only)) {
 				left = append(left, g)
 			}
 		}
